@@ -733,5 +733,830 @@ theorem P_sessInsert {ex : NA → Prop} (c : Cfg) (na sess) (hx : ex na) :
     · exact id))
 
 
+def exO (ex : NA → Prop) (na : NA) : NA → Prop := fun k => ex k ∨ k = na
+
+/-- The state with an in-hand call put back (for `Rel` only membership in `active` matters). -/
+def addCall (call : Call) (st : St) : St := ({ st.1 with active := call :: st.1.active }, st.2)
+
+def NoPend (na : NA) (st : St) : Prop := ∀ e ∈ st.1.pending, e.1 ≠ na
+
+theorem PX.dropEx {ex : NA → Prop} {na : NA} {st : St} (h : PX (exO ex na) st) (hn : NoPend na st) :
+    PX ex st := fun e he hx hne => h e he (fun hh => hh.elim hx (hn e he)) hne
+
+theorem P_activeInsert {ex} (c : Cfg) (call) : Ho (PX ex) (activeInsert c call) (fun _ => PX ex) :=
+  Ho.modS _ (fun st h => h.step rfl (fun k _ hr => by
+    refine Rel.mono ?_ ?_ ?_ hr
+    · exact id
+    · exact id
+    · intro ha; show (List.any (_ ++ _) _) = true; rw [List.any_append, ha]; rfl))
+
+theorem P_activeInsert_hand {ex} (c : Cfg) (call call' : Call)
+    (hc : ∀ k, (call.contact.na == k && call.initiating) = true →
+      (call'.contact.na == k && call'.initiating) = true) :
+    Ho (fun st => PX ex (addCall call st)) (activeInsert c call') (fun _ => PX ex) :=
+  Ho.modS _ (fun st h => PX.step (st := addCall call st) h rfl (fun k _ hr => by
+    refine Rel.mono ?_ ?_ ?_ hr
+    · exact id
+    · exact id
+    · intro ha
+      show (List.any (_ ++ _) _) = true
+      rw [List.any_append]
+      simp only [addCall, List.any_cons, Bool.or_eq_true] at ha
+      rcases ha with ha | ha
+      · simp only [List.any_cons, List.any_nil, Bool.or_false, Bool.or_eq_true]
+        exact Or.inr (hc k ha)
+      · simp only [Bool.or_eq_true]; exact Or.inl ha))
+
+theorem PX.addCall_of_mem {ex} {st : St} {call : Call} (h : PX ex st) (now : Nat) :
+    PX ex (addCall call ({ st.1 with active := st.1.active.erase call, now := now }, st.2)) :=
+  h.step rfl (fun k _ hr => by
+    refine Rel.mono ?_ ?_ ?_ hr
+    · exact id
+    · exact id
+    · intro ha
+      rw [List.any_eq_true] at ha
+      obtain ⟨x, hx, hpx⟩ := ha
+      show List.any (call :: st.1.active.erase call) _ = true
+      rw [List.any_eq_true]
+      by_cases hxc : x = call
+      · exact ⟨call, List.mem_cons_self .., hxc ▸ hpx⟩
+      · exact ⟨x, List.mem_cons_of_mem _ ((List.mem_erase_of_ne hxc).2 hx), hpx⟩)
+
+theorem PX.of_addCall {ex} {st : St} {call : Call} (h : PX ex (addCall call st)) :
+    PX (exO ex call.contact.na) st :=
+  fun e he hx hne => by
+    have hr := h e he (fun hh => hx (Or.inl hh)) hne
+    have hk : e.1 ≠ call.contact.na := fun hh => hx (Or.inr hh)
+    refine Rel.mono ?_ ?_ ?_ hr
+    · exact id
+    · exact id
+    · intro ha
+      simp only [addCall, List.any_cons, Bool.or_eq_true] at ha
+      rcases ha with ha | ha
+      · simp only [Bool.and_eq_true, beq_iff_eq] at ha; exact absurd ha.1.symm hk
+      · exact ha
+
+theorem P_activeRemoveByNonce {ex} (n) : Ho (PX ex) (activeRemoveByNonce n)
+    (fun r st => (r = none → PX ex st) ∧ ∀ call, r = some call → PX ex (addCall call st)) :=
+  activeRemoveByNonce_elim (fun _ hp => ⟨fun _ => ⟨fun _ => hp, fun _ h => (nomatch h)⟩,
+    fun call hf => ⟨fun h => (nomatch h), fun x hx => by
+      cases hx; exact hp.addCall_of_mem _⟩⟩)
+
+/-- Removing calls to an address that has a session entry never removes a releaser. -/
+theorem P_activeRemoveRequest {ex} (na rid) :
+    Ho (fun st => PX ex st ∧ HasSess na st) (activeRemoveRequest na rid)
+      (fun _ st => PX ex st ∧ HasSess na st) :=
+  activeRemoveRequest_elim (fun st hp => ⟨fun _ => hp, fun call hf => ⟨hp.1.step rfl (fun k _ hr => by
+    have hcall := List.find?_some hf
+    simp only [callNA, Bool.and_eq_true, beq_iff_eq] at hcall
+    rcases hr with hr | ⟨h1, h2⟩
+    · exact Or.inl hr
+    · refine Or.inr ⟨h1, ?_⟩
+      have hkn : k ≠ na := by
+        intro hh; subst hh
+        have := hp.2
+        unfold HasSess at this
+        rw [List.any_eq_true] at this
+        obtain ⟨x, hx, hxk⟩ := this
+        rw [List.all_eq_true] at h1
+        have := h1 x hx
+        simp_all
+      rw [List.any_eq_true] at h2 ⊢
+      obtain ⟨x, hx, hpx⟩ := h2
+      have hxc : x ≠ call := by
+        intro hh; subst hh
+        simp only [Bool.and_eq_true, beq_iff_eq] at hpx
+        exact hkn (hpx.1 ▸ hcall.1)
+      exact ⟨x, (List.mem_erase_of_ne hxc).2 hx, hpx⟩), hp.2⟩⟩)
+
+theorem P_activeRemoveRequests {ex} (na) :
+    Ho (PX (exO ex na)) (activeRemoveRequests na) (fun _ => PX (exO ex na)) :=
+  ⟨fun st hp => hp.step rfl (fun k hk hr => by
+    have hkn : k ≠ na := fun hh => hk (Or.inr hh)
+    refine Rel.mono ?_ ?_ ?_ hr
+    · exact id
+    · exact id
+    · intro ha
+      rw [List.any_eq_true] at ha
+      obtain ⟨x, hx, hpx⟩ := ha
+      show List.any (List.filter _ _) _ = true
+      rw [List.any_eq_true]
+      refine ⟨x, List.mem_filter.2 ⟨hx, ?_⟩, hpx⟩
+      simp only [Bool.and_eq_true, beq_iff_eq] at hpx
+      simp only [callNA, bne_iff_ne, ne_eq]
+      exact fun hh => hkn (hpx.1 ▸ hh))⟩
+
+theorem P_activeRemoveRequests_np {ex} (na) :
+    Ho (fun st => PX (exO ex na) st ∧ NoPend na st) (activeRemoveRequests na)
+      (fun _ st => PX (exO ex na) st ∧ NoPend na st) :=
+  Ho.conj (P_activeRemoveRequests na) ⟨fun _ hp => hp⟩
+
+theorem P_replayUpd {ex} {c : Cfg} (oldNonce : Nat) (p : Pkt) : Ho (PX ex) (modS fun s =>
+        let upd : Call → Call := fun call =>
+          if call.pkt.nonce == oldNonce then
+            { call with pkt := p, deadline := s.now + c.requestTimeout, tseq := s.tctr }
+          else call
+        { s with active := s.active.map upd, tctr := s.tctr + 1 }) (fun _ => PX ex) :=
+  Ho.modS _ (fun st h => h.step rfl (fun k _ hr => by
+    refine Rel.mono ?_ ?_ ?_ hr
+    · exact id
+    · exact id
+    · intro ha
+      rw [List.any_eq_true] at ha
+      obtain ⟨x, hx, hpx⟩ := ha
+      show List.any (List.map _ _) _ = true
+      rw [List.any_eq_true]
+      refine ⟨_, List.mem_map_of_mem hx, ?_⟩
+      by_cases hn : (x.pkt.nonce == oldNonce) = true
+      · simp only [hn, if_true]; exact hpx
+      · simp only [hn]; exact hpx))
+
+/-! challenges -/
+theorem P_addChallenge {ex} (f : HState → HState) (na : NA)
+    (hf : ∀ s, ∃ x, x.1 = na ∧ f s = { s with challenges := s.challenges ++ [x], tctr := s.tctr + 1 }) :
+    Ho (PX (exO ex na)) (modS f) (fun _ => PX ex) :=
+  Ho.modS _ (fun st h e he hx hne => by
+    obtain ⟨x, hx1, hfs⟩ := hf st.1
+    simp only [hfs] at he ⊢
+    by_cases hk : e.1 = na
+    · refine Or.inl ?_
+      show List.any (_ ++ _) _ = true
+      rw [List.any_append]; simp [hx1, hk]
+    · have := h e he (fun hh => hh.elim hx hk) hne
+      refine Rel.mono ?_ ?_ ?_ this
+      · intro ha; show List.any (_ ++ _) _ = true; rw [List.any_append, ha]; rfl
+      · exact id
+      · exact id)
+
+theorem PX.filterChallenges {ex} {st : St} (h : PX ex st) (na : NA) (now : Nat) :
+    PX (exO ex na) ({ st.1 with challenges := st.1.challenges.filter (·.1 != na), now := now }, st.2) :=
+  (h.weaken (fun _ => Or.inl)).step rfl (fun k hk hr => by
+    have hkn : k ≠ na := fun hh => hk (Or.inr hh)
+    refine Rel.mono ?_ ?_ ?_ hr
+    · intro ha
+      rw [List.any_eq_true] at ha
+      obtain ⟨x, hx, hpx⟩ := ha
+      show List.any (List.filter _ _) _ = true
+      rw [List.any_eq_true]
+      refine ⟨x, List.mem_filter.2 ⟨hx, ?_⟩, hpx⟩
+      simp only [beq_iff_eq] at hpx
+      simp only [bne_iff_ne, ne_eq]
+      exact fun hh => hkn (hpx ▸ hh)
+    · exact id
+    · exact id)
+
+/-! pending -/
+theorem P_push {ex} (contact : Contact) (rid : Nat) (internal : Bool) (body : Nat) :
+    Ho (fun st => PX ex st ∧ (ex contact.na ∨ Rel st.1 contact.na)) (modS fun s =>
+      let pr : PendingReq := { contact := contact, rid := rid, internal := internal, body := body }
+      if s.pending.any (·.1 == contact.na) then
+        { s with pending := s.pending.map (fun e => if e.1 == contact.na then (e.1, e.2 ++ [pr]) else e) }
+      else { s with pending := s.pending ++ [(contact.na, [pr])] }) (fun _ => PX ex) :=
+  Ho.modS _ (fun st ⟨h, hna⟩ => by
+    have key : ∀ pend' : List (NA × List PendingReq),
+        (∀ e' ∈ pend', e'.1 = contact.na ∨ e' ∈ st.1.pending) →
+        PX ex ({ st.1 with pending := pend' }, st.2) := by
+      intro pend' hp e' he' hx hne
+      rcases hp e' he' with hk | hm
+      · rw [hk] at hx ⊢
+        exact hna.elim (fun hh => absurd hh hx) id
+      · exact h e' hm hx hne
+    dsimp only
+    split
+    · refine key _ (fun e' he' => ?_)
+      simp only [List.mem_map] at he'
+      obtain ⟨e, he, rfl⟩ := he'
+      by_cases hk : e.1 == contact.na
+      · simp only [hk, if_true]; exact Or.inl (beq_iff_eq.1 hk)
+      · simp only [hk]; exact Or.inr he
+    · refine key _ (fun e' he' => ?_)
+      simp only [List.mem_append, List.mem_singleton] at he'
+      rcases he' with he' | he'
+      · exact Or.inr he'
+      · exact Or.inl (by rw [he']))
+
+theorem PX.takePending {ex} {st : St} {na : NA} (h : PX (exO ex na) st) :
+    PX ex ({ st.1 with pending := st.1.pending.filter (·.1 != na) }, st.2) ∧
+    NoPend na ({ st.1 with pending := st.1.pending.filter (·.1 != na) }, st.2) := by
+  constructor
+  · intro e he hx hne
+    have hm := List.mem_filter.1 he
+    have hk : e.1 ≠ na := by simpa using hm.2
+    exact h e hm.1 (fun hh => hh.elim hx hk) hne
+  · intro e he
+    have hm := List.mem_filter.1 he
+    simpa using hm.2
+
+
+theorem P_sessGetMutI {ex} (c : Cfg) (na) : Ho (PX ex) (sessGetMut c na) (fun _ => PX ex) :=
+  (P_sessGetMut c na).post (fun _ _ h => h.1)
+theorem P_reencryptAll {ex} {c : Cfg} (l s acc) : Ho (PX ex) (reencryptAll c l s acc) (fun _ => PX ex) := by
+  induction l generalizing s acc with
+  | nil => unfold reencryptAll; exact Ho.pureI _
+  | cons x xs ih => unfold reencryptAll; exact Ho.bind (P_encryptMessage ..) (fun _ => ih _ _)
+
+syntax "p_leaf" : tactic
+macro_rules | `(tactic| p_leaf) => `(tactic| first
+  | with_reducible exact P_emit _ | with_reducible exact P_send _ _ | with_reducible exact P_freshNonce _
+  | with_reducible exact P_freshCd _ | with_reducible exact P_freshEph _
+  | with_reducible exact P_freshRid _ | with_reducible exact P_addExpected _
+  | with_reducible exact P_removeExpected _ | with_reducible exact P_sessPut _ _
+  | with_reducible exact P_sessRemove _ | with_reducible exact P_sessGetMutI _ _
+  | with_reducible exact P_removeExpiredSessions _
+  | with_reducible exact P_encryptMessage _ _ _ | with_reducible exact P_activeInsert _ _
+  | with_reducible exact P_reencryptAll _ _ _
+  | exact P_replayUpd _ _)
+macro_rules | `(tactic| ho_leaf) => `(tactic| p_leaf)
+
+theorem P_isAwaitingSession {ex} (c : Cfg) (na) : Ho (PX ex) (isAwaitingSession c na)
+    (fun r st => PX ex st ∧ (r = true → Rel st.1 na)) := by
+  unfold isAwaitingSession
+  refine Ho.bind (P_sessGetMut c na) (fun r => ?_)
+  cases r with
+  | some _ => exact Ho.pure _ (fun st hp => ⟨hp.1, fun h => nomatch h⟩)
+  | none =>
+    refine Ho.getS_bind (fun s0 => Ho.pure _ (fun st hp => ?_))
+    obtain ⟨h0, hp, h1, _⟩ := hp
+    refine ⟨hp, fun hr => Or.inr ⟨h1 rfl, ?_⟩⟩
+    rw [List.any_filter] at hr
+    rw [h0]; exact hr
+
+theorem P_sendRequest {ex} (c : Cfg) (ct rid i b) :
+    Ho (PX ex) (sendRequest c ct rid i b) (fun _ => PX ex) := by
+  unfold sendRequest
+  refine Ho.ite (fun _ => Ho.pureI _) (fun _ => Ho.getS_pin (fun s0 => ?_))
+  refine Ho.ite (fun hc => Ho.pure_bind ?_) (fun _ => Ho.unpin (Ho.bind (P_isAwaitingSession c ct.na) (fun r => ?_)))
+  · refine Ho.ite (fun _ => ?_) (fun h => absurd rfl h)
+    refine Ho.bind (Ho.pre (P_push ct rid i b) (fun st hp => ⟨hp.2, Or.inr (Or.inl (hp.1 ▸ hc))⟩)) (fun _ => Ho.pureI _)
+  · refine Ho.ite (fun hr => ?_) (fun _ => ?_)
+    · exact Ho.bind (Ho.pre (P_push ct rid i b) (fun st hp => ⟨hp.1, Or.inr (hp.2 hr)⟩)) (fun _ => Ho.pureI _)
+    · refine Ho.pre ?_ (fun st hp => hp.1)
+      ho_walk
+
+macro_rules | `(tactic| p_leaf) => `(tactic| with_reducible exact P_sendRequest _ _ _ _ _)
+
+theorem P_sendPendingRequests {ex} (c : Cfg) (na) :
+    Ho (PX (exO ex na)) (sendPendingRequests c na) (fun _ => PX ex) := by
+  unfold sendPendingRequests
+  refine Ho.getS_bind (fun s0 => Ho.bind (Q := fun _ => PX ex)
+    (Ho.setS _ (fun st hp => ?_)) (fun _ => ?_))
+  · obtain ⟨h0, hp⟩ := hp
+    subst h0
+    exact hp.takePending.1
+  · ho_walk
+
+/-- invariant of the two failure loops of `failSession` -/
+def PN (ex : NA → Prop) (na : NA) (st : St) : Prop := PX (exO ex na) st ∧ NoPend na st
+
+theorem PN_frame {α} {ex : NA → Prop} {na : NA} {m : M α}
+    (h : ∀ st, (m.run st).2.1.pending = st.1.pending ∧ (m.run st).2.1.challenges = st.1.challenges ∧
+      (m.run st).2.1.sessions = st.1.sessions ∧ (m.run st).2.1.active = st.1.active) :
+    Ho (PN ex na) m (fun _ => PN ex na) :=
+  ⟨fun st hp => ⟨(P_frame h).out st hp.1, by unfold NoPend; rw [(h st).1]; exact hp.2⟩⟩
+
+theorem PN_emit {ex na} (o) : Ho (PN ex na) (emit o) (fun _ => PN ex na) := PN_frame (fun _ => ⟨rfl, rfl, rfl, rfl⟩)
+theorem PN_removeExpected {ex na} (a) : Ho (PN ex na) (removeExpected a) (fun _ => PN ex na) :=
+  PN_frame (fun _ => ⟨rfl, rfl, rfl, rfl⟩)
+
+theorem P_failSession {ex} (c : Cfg) (na e b) :
+    Ho (PX (exO ex na)) (failSession c na e b) (fun _ => PX ex) := by
+  have tail : Ho (PN ex na) (do
+        let calls ← activeRemoveRequests na
+        forEach calls fun call => do
+          if !call.internal then emit (.failed call.rid e)
+          removeExpected na.addr) (fun _ => PX ex) := by
+    refine Ho.bind (P_activeRemoveRequests_np na) (fun calls => ?_)
+    refine Ho.post (Ho.forEachI _ _ (fun call => ?_)) (fun _ st hp => hp.1.dropEx hp.2)
+    refine Ho.ite (fun _ => Ho.bind (PN_emit _) (fun _ => PN_removeExpected _)) (fun _ => PN_removeExpected _)
+  have mid : Ho (PX (exO ex na)) (do
+        let s ← getS
+        match s.pending.find? (·.1 == na) with
+        | some ent =>
+          setS { s with pending := s.pending.filter (·.1 != na) }
+          forEach ent.2 fun pr => do
+            if !pr.internal then emit (.failed pr.rid e)
+        | none => pure ()
+        let calls ← activeRemoveRequests na
+        forEach calls fun call => do
+          if !call.internal then emit (.failed call.rid e)
+          removeExpected na.addr) (fun _ => PX ex) := by
+    refine Ho.getS_bind (fun s0 => ?_)
+    split
+    · rename_i ent hf
+      refine Ho.bind (Q := fun _ => PN ex na) (Ho.setS _ (fun st hp => ?_)) (fun _ => ?_)
+      · obtain ⟨h0, hp⟩ := hp
+        subst h0
+        exact ⟨(hp.takePending.1).weaken (fun _ => Or.inl), hp.takePending.2⟩
+      · refine Ho.bind (Ho.forEachI _ _ (fun pr => ?_)) (fun _ => tail)
+        exact Ho.ite (fun _ => PN_emit _) (fun _ => Ho.pureI _)
+    · rename_i hf
+      refine Ho.pre tail (fun st hp => ?_)
+      obtain ⟨h0, hp⟩ := hp
+      subst h0
+      refine ⟨hp, fun e he hk => ?_⟩
+      rw [List.find?_eq_none] at hf
+      have := hf e he
+      simp [hk] at this
+  unfold failSession
+  refine Ho.ite (fun _ => ?_) (fun _ => mid)
+  exact Ho.bind (P_removeExpiredSessions c) (fun _ => Ho.bind (P_sessRemove na) (fun _ => mid))
+
+theorem P_failRequest {ex} (c : Cfg) (call e b) :
+    Ho (PX (exO ex (callNA call))) (failRequest c call e b) (fun _ => PX ex) := by
+  unfold failRequest
+  exact Ho.ite (fun _ => Ho.bind (P_emit _) (fun _ => P_failSession ..)) (fun _ => P_failSession ..)
+
+theorem P_handleRequestTimeout {ex} (c : Cfg) (call : Call) :
+    Ho (fun st => PX ex (addCall call st)) (handleRequestTimeout c call) (fun _ => PX ex) := by
+  unfold handleRequestTimeout
+  refine Ho.ite (fun _ => ?_) (fun _ => ?_)
+  · refine Ho.pre ?_ (fun st hp => hp.of_addCall)
+    exact Ho.bind (P_removeExpected _) (fun _ => P_failRequest ..)
+  · refine Ho.bind (Q := fun _ st => PX ex (addCall call st)) ⟨fun st hp => hp⟩ (fun _ => ?_)
+    exact P_activeInsert_hand c call _ (fun _ h => h)
+
+theorem P_replayActiveRequests {ex} (c : Cfg) (na sk) :
+    Ho (PX ex) (replayActiveRequests c na sk) (fun _ => PX ex) := by
+  unfold replayActiveRequests; ho_walk
+
+macro_rules | `(tactic| p_leaf) => `(tactic| with_reducible exact P_replayActiveRequests _ _ _)
+
+theorem P_newSession {ex} (c : Cfg) (na sess sk) :
+    Ho (PX (exO ex na)) (newSession c na sess sk) (fun _ => PX ex) := by
+  unfold newSession
+  refine Ho.bind (P_removeExpiredSessions c) (fun _ => Ho.bind (P_sessGetMutI c na) (fun r => ?_))
+  cases r with
+  | some cur =>
+    exact Ho.bind (P_sessPut ..) (fun _ => Ho.bind (P_replayActiveRequests ..) (fun _ => P_sendPendingRequests ..))
+  | none =>
+    exact Ho.bind (P_sessInsert c na sess (Or.inr rfl)) (fun _ => P_sendPendingRequests ..)
+
+theorem P_sendChallenge {ex} (c : Cfg) (na n k) : Ho (PX ex) (sendChallenge c na n k) (fun _ => PX ex) := by
+  unfold sendChallenge
+  refine Ho.bindP Ho.getI (fun s => Ho.ite (fun _ => Ho.pureI _) (fun _ => ?_))
+  refine Ho.bindP (P_freshCd c) (fun cd => Ho.bindP (P_addExpected _) (fun _ => Ho.bindP (P_send ..) (fun _ => ?_)))
+  exact Ho.pre (P_addChallenge _ na (fun s => ⟨_, rfl, rfl⟩)) (fun st hp => hp.weaken (fun _ => Or.inl))
+
+theorem P_handleChallenge {ex} (c : Cfg) (src n cd es) :
+    Ho (PX ex) (handleChallenge c src n cd es) (fun _ => PX ex) := by
+  unfold handleChallenge
+  refine Ho.bind (P_activeRemoveByNonce n) (fun r => ?_)
+  cases r with
+  | none => exact Ho.pure _ (fun st hp => hp.1 rfl)
+  | some call0 =>
+    refine Ho.pre (P' := fun st => PX ex (addCall call0 st)) ?_ (fun st hp => hp.2 _ rfl)
+    refine Ho.ite (fun _ => ?_) (fun _ => Ho.ite (fun _ => ?_) (fun _ => ?_))
+    · exact Ho.bind (P_activeInsert_hand c call0 call0 (fun _ h => h)) (fun _ => Ho.pureI _)
+    · refine Ho.pre ?_ (fun st hp => hp.of_addCall)
+      exact Ho.bind (P_removeExpected _) (fun _ => Ho.bind (P_failRequest ..) (fun _ => Ho.pureI _))
+    · refine Ho.pre (P' := PX (exO ex (callNA call0))) ?_ (fun st hp => hp.of_addCall)
+      ho_walk
+      all_goals exact P_newSession ..
+
+theorem P_failSessionI {ex} (c : Cfg) (na e b) : Ho (PX ex) (failSession c na e b) (fun _ => PX ex) :=
+  Ho.pre (P_failSession c na e b) (fun _ hp => hp.weaken (fun _ => Or.inl))
+macro_rules | `(tactic| p_leaf) => `(tactic| with_reducible first
+  | exact P_failSessionI _ _ _ _ | exact P_sendChallenge _ _ _ _ | exact P_handleChallenge _ _ _ _ _)
+
+/-- `PX` together with "a session entry for `na` exists" -/
+def PH (ex : NA → Prop) (na : NA) (st : St) : Prop := PX ex st ∧ HasSess na st
+
+theorem PH_sessPut {ex} (na sess) : Ho (PH ex na) (sessPut na sess) (fun _ => PH ex na) :=
+  Ho.conj (P_sessPut na sess) (Ho.modS _ (fun st h => by
+    unfold HasSess at h ⊢
+    rw [List.any_eq_true] at h ⊢
+    obtain ⟨x, hx, hk⟩ := h
+    refine ⟨_, List.mem_map_of_mem hx, ?_⟩
+    simp only [hk, if_true, beq_self_eq_true]))
+
+theorem P_handleResponse {ex} (c : Cfg) (na rid rb) :
+    Ho (PH ex na) (handleResponse c na rid rb) (fun _ => PX ex) := by
+  unfold handleResponse
+  refine Ho.bind (P_activeRemoveRequest na rid) (fun r => Ho.pre (P' := PX ex) ?_ (fun _ hp => hp.1))
+  ho_walk
+
+theorem P_handleMessage {ex} (c : Cfg) (na n ct) : Ho (PX ex) (handleMessage c na n ct) (fun _ => PX ex) := by
+  unfold handleMessage
+  refine Ho.bind (P_sessGetMut c na) (fun r => ?_)
+  cases r with
+  | none => exact Ho.pre (P_emit _) (fun _ hp => hp.1)
+  | some sess =>
+    refine Ho.pre (P' := PH ex na) ?_ (fun _ hp => ⟨hp.1, hp.2.2 (fun h => nomatch h)⟩)
+    dsimp only
+    refine Ho.bind (PH_sessPut ..) (fun _ => ?_)
+    split
+    · refine Ho.pre (P' := PX ex) ?_ (fun _ hp => hp.1)
+      ho_walk
+    · exact Ho.pure _ (fun _ hp => hp.1)
+    · exact Ho.pre (P_emit _) (fun _ hp => hp.1)
+    · refine Ho.ite (fun _ => ?_) (fun _ => P_handleResponse ..)
+      refine Ho.bind (PH_sessPut ..) (fun _ => Ho.bind (P_activeRemoveRequest na _) (fun r =>
+        Ho.pre (P' := PX ex) ?_ (fun _ hp => hp.1)))
+      ho_walk
+macro_rules | `(tactic| p_leaf) => `(tactic| with_reducible exact P_handleMessage _ _ _ _)
+
+theorem P_handleAuthMessage {ex} (c : Cfg) (na n sig eph r ct) :
+    Ho (PX ex) (handleAuthMessage c na n sig eph r ct) (fun _ => PX ex) := by
+  unfold handleAuthMessage
+  refine Ho.getS_bind (fun s0 => ?_)
+  split
+  · exact Ho.pure _ (fun _ hp => hp.2)
+  · rename_i k ch dl sq hf
+    refine Ho.bind (Q := fun _ => PX (exO ex na)) (Ho.setS _ (fun st hp => ?_)) (fun _ => ?_)
+    · obtain ⟨h0, hp⟩ := hp
+      subst h0
+      exact hp.filterChallenges na _
+    · split
+      · ho_walk
+        all_goals exact Ho.bind (P_newSession ..) (fun _ => P_handleMessage ..)
+      · exact P_addChallenge _ na (fun s => ⟨_, rfl, rfl⟩)
+      · exact Ho.bind (P_removeExpected _) (fun _ => P_failSession ..)
+
+theorem P_fireTimers {ex} (c : Cfg) (target fuel : Nat) :
+    Ho (PX ex) (fireTimers c target fuel) (fun _ => PX ex) := by
+  induction fuel with
+  | zero => unfold fireTimers; exact Ho.pureI _
+  | succ n ih =>
+    unfold fireTimers
+    refine Ho.getS_bind (fun s0 => ?_)
+    split
+    · exact Ho.pure _ (fun _ hp => hp.2)
+    · rename_i d call hnd
+      refine Ho.bind (Q := fun _ st => PX ex (addCall call st)) (Ho.setS _ (fun st hp => ?_)) (fun _ => ?_)
+      · obtain ⟨h0, hp⟩ := hp
+        subst h0
+        exact hp.addCall_of_mem _
+      · exact Ho.bind (P_handleRequestTimeout c call) (fun _ => ih)
+    · rename_i d na hnd
+      refine Ho.bind (Q := fun _ => PX (exO ex na)) (Ho.setS _ (fun st hp => ?_)) (fun _ => ?_)
+      · obtain ⟨h0, hp⟩ := hp
+        subst h0
+        exact hp.filterChallenges na _
+      · exact Ho.bind (P_removeExpected _) (fun _ => Ho.bind (P_sendPendingRequests ..) (fun _ => ih))
+
+macro_rules | `(tactic| p_leaf) => `(tactic| first
+  | with_reducible exact P_handleAuthMessage _ _ _ _ _ _ _ | with_reducible exact P_fireTimers _ _ _
+  | exact P_modS _ (fun _ => rfl) (fun _ _ _ h => h))
+
+theorem P_stepM {ex} (c : Cfg) (e : Ev) : Ho (PX ex) (stepM c e) (fun _ => PX ex) := by
+  cases e with
+  | dgram src p => simp only [stepM]; ho_walk
+  | _ => simp only [stepM]; ho_walk
+
+theorem pending_has_releaser' (c : Cfg) (evs : List Ev) : PendingHasReleaser (run c evs) := by
+  induction evs using snoc_induction with
+  | h0 => intro e he; cases he
+  | h1 evs e ih =>
+    rw [run_snoc, step_eq, ← PX_iff _ ((stepM c e).run (run c evs, [])).2.2]
+    exact (P_stepM c e).out (run c evs, []) ((PX_iff _ _).2 ih)
+
+set_option linter.unusedSimpArgs false
+/-! ## Walk A: request accounting -/
+
+/-- (request id, internal?) of a tracked request. -/
+abbrev Item := Nat × Bool
+def Call.item (x : Call) : Item := (x.rid, x.internal)
+def PendingReq.item (x : PendingReq) : Item := (x.rid, x.internal)
+def pitems (p : List (NA × List PendingReq)) : List Item := p.flatMap (fun e => e.2.map PendingReq.item)
+/-- Everything tracked by the state. -/
+def items (s : HState) : List Item := s.active.map Call.item ++ pitems s.pending
+
+def nfail (rid : Nat) (os : List Out) : Nat := (os.filter (isFailure rid)).length
+def nabout (rid : Nat) (os : List Out) : Nat := (os.filter (aboutRid rid)).length
+def PKN (s : HState) : Prop := (s.pending.map (·.1)).Nodup
+def SBig (sess : Session) : Prop := ∀ r, sess.awaitingEnr = some r → 1000000 ≤ r
+def SessBig (s : HState) : Prop := ∀ e ∈ s.sessions, SBig e.2.1
+
+theorem isFailure_about {rid : Nat} {o : Out} (h : isFailure rid o = true) : aboutRid rid o = true := by
+  cases o <;> simp_all [isFailure, aboutRid]
+
+theorem nfail_append (rid : Nat) (a b : List Out) : nfail rid (a ++ b) = nfail rid a + nfail rid b := by
+  simp [nfail, List.filter_append]
+theorem nabout_append (rid : Nat) (a b : List Out) : nabout rid (a ++ b) = nabout rid a + nabout rid b := by
+  simp [nabout, List.filter_append]
+theorem nfail_single (rid : Nat) (o : Out) : nfail rid [o] = if isFailure rid o then 1 else 0 := by
+  by_cases h : isFailure rid o <;> simp [nfail, List.filter, h]
+theorem nabout_single (rid : Nat) (o : Out) : nabout rid [o] = if aboutRid rid o then 1 else 0 := by
+  by_cases h : aboutRid rid o <;> simp [nabout, List.filter, h]
+
+/-! ### the tracked ids of the specification are the external items -/
+theorem count_ext_calls (rid : Nat) (l : List Call) :
+    ((l.filter (fun call => !call.internal)).map (·.rid)).count rid = (l.map Call.item).count (rid, false) := by
+  induction l with
+  | nil => rfl
+  | cons x xs ih =>
+    cases hi : x.internal
+    · by_cases hr : x.rid = rid
+      · simp [List.filter_cons, hi, List.count_cons, Call.item, ih, hr]
+      · simp [List.filter_cons, hi, List.count_cons, Call.item, ih, hr]
+    · simp [List.filter_cons, hi, List.count_cons, Call.item, ih]
+
+theorem count_ext_prs (rid : Nat) (l : List PendingReq) :
+    ((l.filter (fun pr => !pr.internal)).map (·.rid)).count rid = (l.map PendingReq.item).count (rid, false) := by
+  induction l with
+  | nil => rfl
+  | cons x xs ih =>
+    cases hi : x.internal
+    · by_cases hr : x.rid = rid
+      · simp [List.filter_cons, hi, List.count_cons, PendingReq.item, ih, hr]
+      · simp [List.filter_cons, hi, List.count_cons, PendingReq.item, ih, hr]
+    · simp [List.filter_cons, hi, List.count_cons, PendingReq.item, ih]
+
+theorem count_trackedExt (rid : Nat) (s : HState) :
+    (trackedExt s).count rid = (items s).count (rid, false) := by
+  unfold trackedExt items pitems
+  rw [List.count_append, List.count_append, count_ext_calls]
+  congr 1
+  induction s.pending with
+  | nil => rfl
+  | cons e es ih => simp only [List.flatMap_cons, List.count_append, ih, count_ext_prs]
+
+/-! ### how the primitives move items -/
+theorem items_erase {s : HState} {call : Call} (h : call ∈ s.active) (now : Nat) :
+    (call.item :: items { s with active := s.active.erase call, now := now }).Perm (items s) := by
+  unfold items
+  have := (List.perm_cons_erase h).map Call.item
+  simp only [List.map_cons] at this
+  exact (List.Perm.append_right _ this).symm
+
+theorem items_removeRequests (s : HState) (p : Call → Bool) :
+    ((s.active.filter p).map Call.item ++ items { s with active := s.active.filter (fun c => !p c) }).Perm (items s) := by
+  unfold items
+  rw [← List.append_assoc, ← List.map_append]
+  exact List.Perm.append_right _ ((List.filter_append_perm p s.active).map _)
+
+theorem map_upd_of_not_mem {es : List (NA × List PendingReq)} {na : NA} (pr : PendingReq)
+    (h : na ∉ es.map (·.1)) :
+    es.map (fun e => if e.1 == na then (e.1, e.2 ++ [pr]) else e) = es := by
+  induction es with
+  | nil => rfl
+  | cons x xs ih =>
+    simp only [List.map_cons, List.mem_cons, not_or] at h
+    have hx : ¬ (x.1 == na) = true := fun hh => h.1 (beq_iff_eq.1 hh).symm
+    simp only [List.map_cons, hx, if_false, ih h.2]
+    rfl
+
+theorem pitems_cons (e : NA × List PendingReq) (es : List (NA × List PendingReq)) :
+    pitems (e :: es) = e.2.map PendingReq.item ++ pitems es := by
+  simp [pitems]
+
+theorem pitems_push_mem {p : List (NA × List PendingReq)} {na : NA} (pr : PendingReq)
+    (hn : (p.map (·.1)).Nodup) (hm : na ∈ p.map (·.1)) :
+    (pitems (p.map (fun e => if e.1 == na then (e.1, e.2 ++ [pr]) else e))).Perm (pr.item :: pitems p) := by
+  induction p with
+  | nil => simp at hm
+  | cons e es ih =>
+    simp only [List.map_cons, List.nodup_cons] at hn
+    by_cases hk : (e.1 == na) = true
+    · have hk' : e.1 = na := beq_iff_eq.1 hk
+      have hrest := map_upd_of_not_mem pr (hk' ▸ hn.1)
+      simp only [List.map_cons, hk, if_true, hrest, pitems_cons, List.map_append, List.map_cons, List.map_nil]
+      rw [List.append_assoc]
+      exact List.perm_middle
+    · have hk' : e.1 ≠ na := fun hh => hk (beq_iff_eq.2 hh)
+      simp only [List.map_cons, List.mem_cons] at hm
+      have hm' : na ∈ es.map (·.1) := hm.resolve_left (fun hh => hk' hh.symm)
+      simp only [List.map_cons, hk, if_false, pitems_cons]
+      exact ((ih hn.2 hm').append_left _).trans List.perm_middle
+
+theorem pitems_push_new (p : List (NA × List PendingReq)) (na : NA) (pr : PendingReq) :
+    (pitems (p ++ [(na, [pr])])).Perm (pr.item :: pitems p) := by
+  simp only [pitems, List.flatMap_append, List.flatMap_cons, List.flatMap_nil, List.map_cons, List.map_nil,
+    List.append_nil]
+  exact List.perm_append_comm
+
+theorem filter_ne_of_not_mem {es : List (NA × List PendingReq)} {na : NA} (h : na ∉ es.map (·.1)) :
+    es.filter (·.1 != na) = es := by
+  rw [List.filter_eq_self]
+  intro a ha
+  simp only [bne_iff_ne, ne_eq]
+  exact fun hh => h (hh ▸ List.mem_map_of_mem ha)
+
+theorem pitems_take {p : List (NA × List PendingReq)} {na : NA} {ent : NA × List PendingReq}
+    (hn : (p.map (·.1)).Nodup) (hf : p.find? (·.1 == na) = some ent) :
+    (ent.2.map PendingReq.item ++ pitems (p.filter (·.1 != na))).Perm (pitems p) := by
+  induction p with
+  | nil => simp at hf
+  | cons e es ih =>
+    simp only [List.map_cons, List.nodup_cons] at hn
+    by_cases hk : (e.1 == na) = true
+    · have hk' : e.1 = na := beq_iff_eq.1 hk
+      simp only [List.find?_cons, hk, Option.some.injEq] at hf
+      subst hf
+      have : (e :: es).filter (·.1 != na) = es := by
+        simp only [List.filter_cons, bne, hk, Bool.not_true]
+        exact filter_ne_of_not_mem (hk' ▸ hn.1)
+      rw [this, pitems_cons]
+    · simp only [List.find?_cons, hk] at hf
+      have : (e :: es).filter (·.1 != na) = e :: es.filter (·.1 != na) := by
+        simp [List.filter_cons, bne, hk]
+      rw [this, pitems_cons, pitems_cons, ← List.append_assoc]
+      refine (List.Perm.append_right _ List.perm_append_comm).trans ?_
+      rw [List.append_assoc]
+      exact (ih hn.2 hf).append_left _
+
+theorem filter_ne_of_find_none {p : List (NA × List PendingReq)} {na : NA}
+    (hf : p.find? (·.1 == na) = none) : p.filter (·.1 != na) = p := by
+  rw [List.filter_eq_self]
+  intro a ha
+  rw [List.find?_eq_none] at hf
+  have := hf a ha
+  simpa [bne] using this
+
+theorem PKN_filter {s : HState} (h : PKN s) (q : NA × List PendingReq → Bool) :
+    PKN { s with pending := s.pending.filter q } :=
+  List.Nodup.sublist (List.Sublist.map _ List.filter_sublist) h
+
+
+
+/-- The accounting invariant for request id `rid`, with the items `H` currently "in hand"
+(removed from the state but not yet re-inserted or reported).  `n1`, `n2`, `z` are ghost values that
+turn the relational statement (failures + tracked never grows; tracked + reports never shrinks;
+untracked stays silent) into a state predicate. -/
+structure Acc (rid n1 n2 : Nat) (z : Prop) (H : List Item) (st : St) : Prop where
+  pkn : PKN st.1
+  sb : SessBig st.1
+  ib : ∀ x ∈ items st.1 ++ H, x.2 = true → 1000000 ≤ x.1
+  up : nfail rid st.2 + (items st.1 ++ H).count (rid, false) ≤ n1
+  lo : rid < 1000000 → n2 ≤ (items st.1 ++ H).count (rid, false) + nabout rid st.2
+  si : z → rid < 1000000 ∧ (items st.1 ++ H).count (rid, false) = 0 ∧ nabout rid st.2 = 0
+
+variable {rid n1 n2 : Nat} {z : Prop}
+
+/-- Master transfer lemma. -/
+theorem Acc.change {H H' : List Item} {st st' : St} (h : Acc rid n1 n2 z H st)
+    (hpk : PKN st'.1) (hsb : SessBig st'.1)
+    (hib : ∀ x ∈ items st'.1 ++ H', x.2 = true → 1000000 ≤ x.1)
+    (hup : nfail rid st'.2 + (items st'.1 ++ H').count (rid, false) ≤
+      nfail rid st.2 + (items st.1 ++ H).count (rid, false))
+    (hlo : rid < 1000000 → (items st.1 ++ H).count (rid, false) + nabout rid st.2 ≤
+      (items st'.1 ++ H').count (rid, false) + nabout rid st'.2)
+    (hsi : rid < 1000000 → (items st.1 ++ H).count (rid, false) = 0 → nabout rid st.2 = 0 →
+      (items st'.1 ++ H').count (rid, false) = 0 ∧ nabout rid st'.2 = 0) :
+    Acc rid n1 n2 z H' st' :=
+  ⟨hpk, hsb, hib, Nat.le_trans hup h.up, fun hr => Nat.le_trans (h.lo hr) (hlo hr),
+    fun hz => ⟨(h.si hz).1, hsi (h.si hz).1 (h.si hz).2.1 (h.si hz).2.2⟩⟩
+
+/-- Items are only moved around (state ↔ hand), outputs untouched. -/
+theorem Acc.move {H H' : List Item} {st st' : St} (h : Acc rid n1 n2 z H st)
+    (hpk : PKN st'.1) (hsb : SessBig st'.1)
+    (hperm : (items st'.1 ++ H').Perm (items st.1 ++ H)) (hout : st'.2 = st.2) :
+    Acc rid n1 n2 z H' st' := by
+  have hc := hperm.count_eq (rid, false)
+  refine h.change hpk hsb (fun x hx => h.ib x (hperm.mem_iff.1 hx)) ?_ ?_ ?_
+  · rw [hout, hc]; exact Nat.le_refl _
+  · intro _; rw [hout, hc]; exact Nat.le_refl _
+  · intro _ h0 h1; rw [hout, hc]; exact ⟨h0, h1⟩
+
+theorem Acc.permH {H H' : List Item} {st : St} (h : Acc rid n1 n2 z H st) (hp : H'.Perm H) :
+    Acc rid n1 n2 z H' st :=
+  h.move h.pkn h.sb (hp.append_left _) rfl
+
+/-- Same tracked items, session table replaced. -/
+theorem Acc.sess {H : List Item} {st : St} (h : Acc rid n1 n2 z H st) (ss : List (NA × Session × Nat))
+    (hs : ∀ e ∈ ss, SBig e.2.1) : Acc rid n1 n2 z H ({ st.1 with sessions := ss }, st.2) :=
+  h.move h.pkn hs (List.Perm.refl _) rfl
+
+/-- An output that is neither a response nor a failure. -/
+theorem Acc.neutral {H : List Item} {st : St} (h : Acc rid n1 n2 z H st) (o : Out)
+    (ho : ∀ r, aboutRid r o = false) : Acc rid n1 n2 z H (st.1, st.2 ++ [o]) := by
+  have h1 : nfail rid (st.2 ++ [o]) = nfail rid st.2 := by
+    rw [nfail_append, nfail_single]
+    have : isFailure rid o = false := by
+      cases hf : isFailure rid o
+      · rfl
+      · have := isFailure_about hf; rw [ho] at this; cases this
+    simp [this]
+  have h2 : nabout rid (st.2 ++ [o]) = nabout rid st.2 := by
+    rw [nabout_append, nabout_single, ho]; simp
+  refine h.change h.pkn h.sb h.ib ?_ ?_ ?_
+  · show nfail rid (st.2 ++ [o]) + _ ≤ _; rw [h1]; exact Nat.le_refl _
+  · intro _; show _ ≤ _ + nabout rid (st.2 ++ [o]); rw [h2]; exact Nat.le_refl _
+  · intro _ h0 h3; exact ⟨h0, by show nabout rid (st.2 ++ [o]) = 0; rw [h2]; exact h3⟩
+
+theorem count_cons_item (r : Nat) (i : Bool) (l : List Item) (rid : Nat) :
+    (l ++ (r, i) :: H).count (rid, false) =
+      (l ++ H).count (rid, false) + if r = rid ∧ i = false then 1 else 0 := by
+  rw [List.count_append, List.count_cons, List.count_append, Nat.add_assoc]
+  congr 2
+  by_cases h : r = rid ∧ i = false
+  · obtain ⟨h1, h2⟩ := h; subst h1; subst h2; simp
+  · have : ((r, i) == (rid, false)) = false := by
+      cases hb : ((r, i) == (rid, false))
+      · rfl
+      · rw [beq_iff_eq] at hb; cases hb; exact absurd ⟨rfl, rfl⟩ h
+    simp [this, h]
+
+theorem mem_of_mem_drop_head {r : Nat} {i : Bool} {l H : List Item} {x : Item} (h : x ∈ l ++ H) :
+    x ∈ l ++ (r, i) :: H := by
+  simp only [List.mem_append, List.mem_cons] at h ⊢
+  rcases h with h | h
+  · exact Or.inl h
+  · exact Or.inr (Or.inr h)
+
+/-- An external in-hand request is reported as failed. -/
+theorem Acc.fail {H : List Item} {st : St} {r : Nat} (e : Err)
+    (h : Acc rid n1 n2 z ((r, false) :: H) st) : Acc rid n1 n2 z H (st.1, st.2 ++ [.failed r e]) := by
+  have hc := count_cons_item (H := H) r false (items st.1) rid
+  have h1 : nfail rid (st.2 ++ [.failed r e]) = nfail rid st.2 + if r = rid then 1 else 0 := by
+    rw [nfail_append, nfail_single]; simp [isFailure]
+  have h2 : nabout rid (st.2 ++ [.failed r e]) = nabout rid st.2 + if r = rid then 1 else 0 := by
+    rw [nabout_append, nabout_single]; simp [aboutRid]
+  refine h.change h.pkn h.sb (fun x hx => h.ib x (mem_of_mem_drop_head hx)) ?_ ?_ ?_
+  · show nfail rid (st.2 ++ [.failed r e]) + _ ≤ _
+    rw [h1, hc]; by_cases hr : r = rid <;> simp [hr] <;> omega
+  · intro _; show _ ≤ _ + nabout rid (st.2 ++ [.failed r e])
+    rw [h2, hc]; by_cases hr : r = rid <;> simp [hr] <;> omega
+  · intro _ h0 h3
+    show _ ∧ nabout rid (st.2 ++ [.failed r e]) = 0
+    rw [h2]; rw [hc] at h0
+    by_cases hr : r = rid <;> simp [hr] at h0 ⊢ <;> omega
+
+/-- An in-hand item that cannot be `(rid, false)` is dropped. -/
+theorem Acc.drop {H : List Item} {st : St} {r : Nat} {i : Bool}
+    (h : Acc rid n1 n2 z ((r, i) :: H) st) (hne : rid < 1000000 → ¬ (r = rid ∧ i = false)) :
+    Acc rid n1 n2 z H st := by
+  have hc := count_cons_item (H := H) r i (items st.1) rid
+  refine h.change h.pkn h.sb (fun x hx => h.ib x (mem_of_mem_drop_head hx)) ?_ ?_ ?_
+  · rw [hc]; omega
+  · intro hr; rw [hc]; simp [hne hr]
+  · intro hr h0 h3; rw [hc] at h0; exact ⟨by omega, h3⟩
+
+theorem Acc.drop_int {H : List Item} {st : St} {r : Nat}
+    (h : Acc rid n1 n2 z ((r, true) :: H) st) : Acc rid n1 n2 z H st :=
+  h.drop (fun _ hh => nomatch hh.2)
+
+theorem Acc.drop_big {H : List Item} {st : St} {r : Nat} {i : Bool}
+    (h : Acc rid n1 n2 z ((r, i) :: H) st) (hb : 1000000 ≤ r) : Acc rid n1 n2 z H st :=
+  h.drop (fun hr hh => by omega)
+
+/-- A fresh internal request comes into hand. -/
+theorem Acc.add_int {H : List Item} {st : St} {r : Nat}
+    (h : Acc rid n1 n2 z H st) (hb : 1000000 ≤ r) : Acc rid n1 n2 z ((r, true) :: H) st := by
+  have hc := count_cons_item (H := H) r true (items st.1) rid
+  have : ¬ (r = rid ∧ true = false) := fun hh => nomatch hh.2
+  simp only [this, if_false, Nat.add_zero] at hc
+  refine h.change h.pkn h.sb ?_ ?_ ?_ ?_
+  · intro x hx hxi
+    simp only [List.mem_append, List.mem_cons] at hx
+    rcases hx with hx | hx | hx
+    · exact h.ib x (List.mem_append.2 (Or.inl hx)) hxi
+    · rw [hx]; exact hb
+    · exact h.ib x (List.mem_append.2 (Or.inr hx)) hxi
+  · rw [hc]; exact Nat.le_refl _
+  · intro _; rw [hc]; exact Nat.le_refl _
+  · intro _ h0 h3; rw [hc]; exact ⟨h0, h3⟩
+
+/-- A response is delivered for a request that stays tracked (partial NODES response). -/
+theorem Acc.resp_keep {H : List Item} {st : St} {r : Nat} {i : Bool} (na : NA) (rb : RespBody)
+    (h : Acc rid n1 n2 z H st) (hm : (r, i) ∈ items st.1 ++ H) :
+    Acc rid n1 n2 z H (st.1, st.2 ++ [.response na r rb]) := by
+  have h1 : nfail rid (st.2 ++ [.response na r rb]) = nfail rid st.2 := by
+    rw [nfail_append, nfail_single]; simp [isFailure]
+  have h2 : nabout rid (st.2 ++ [.response na r rb]) = nabout rid st.2 + if r = rid then 1 else 0 := by
+    rw [nabout_append, nabout_single]; simp [aboutRid]
+  refine h.change h.pkn h.sb h.ib ?_ ?_ ?_
+  · show nfail rid (st.2 ++ [.response na r rb]) + _ ≤ _; rw [h1]; exact Nat.le_refl _
+  · intro _; dsimp only; rw [h2]; omega
+  · intro hr h0 h3
+    refine ⟨h0, ?_⟩
+    show nabout rid (st.2 ++ [.response na r rb]) = 0
+    rw [h2, h3]
+    by_cases hrr : r = rid
+    · subst hrr
+      cases i with
+      | false => exact absurd (List.count_pos_iff.2 hm) (by omega)
+      | true => have := h.ib _ hm rfl; simp at this; omega
+    · simp [hrr]
+
+/-- The final response for an in-hand request. -/
+theorem Acc.resp_final {H : List Item} {st : St} {r : Nat} {i : Bool} (na : NA) (rb : RespBody)
+    (h : Acc rid n1 n2 z ((r, i) :: H) st) :
+    Acc rid n1 n2 z H (st.1, st.2 ++ [.response na r rb]) := by
+  have hk := h.resp_keep (r := r) (i := i) na rb (by simp)
+  have hc := count_cons_item (H := H) r i (items st.1) rid
+  have h2 : nabout rid (st.2 ++ [.response na r rb]) = nabout rid st.2 + if r = rid then 1 else 0 := by
+    rw [nabout_append, nabout_single]; simp [aboutRid]
+  -- drop the item: the lower bound is paid by the response just emitted
+  refine ⟨hk.pkn, hk.sb, fun x hx => hk.ib x (mem_of_mem_drop_head hx), ?_, ?_, ?_⟩
+  · have := hk.up; dsimp only at this ⊢; rw [hc] at this; omega
+  · intro hr
+    have h0 := h.lo hr
+    rw [hc] at h0
+    dsimp only
+    rw [h2]
+    by_cases hrr : r = rid
+    · subst hrr
+      cases i with
+      | false => simp at h0 ⊢; omega
+      | true => simp at h0 ⊢; omega
+    · simp [hrr] at h0 ⊢; omega
+  · intro hz
+    have := hk.si hz
+    dsimp only at this ⊢
+    rw [hc] at this
+    exact ⟨this.1, by omega, this.2.2⟩
+
+
 end Discv5.H
 
